@@ -78,7 +78,9 @@ class sut:
         if issubclass(et, (Violation, CaseTimeout, KeyboardInterrupt, HarnessProblem)):
             return False
         if issubclass(et, Exception):
-            if self.allowed and issubclass(et, self.allowed):
+            # (RecursionError / NotImplementedError are subclasses of RuntimeError: they are never what a check means
+            # by "the documented RuntimeError")
+            if self.allowed and issubclass(et, self.allowed) and not issubclass(et, (RecursionError, NotImplementedError)):
                 return False
             frames = traceback.extract_tb(tb)
             where = ""
